@@ -38,6 +38,15 @@ def stress_jobs(rng, n):
         c = C01.cap(v, level, md) - rng.choice([0, 0, 1, 2])
         f = C01.filler(rng, md, max(0, c), 1)
         jobs.append(dict(sym="qr", content=list(f if isinstance(f, bytes) else f.encode()), p=[level, rng.choice([0, {1: 1, 2: 2, 4: 3}[md]])]))
+    # error paths: refused inputs (too long for the largest symbol, characters outside the mode) must leave nothing running either
+    jobs.append(dict(sym="qr", content=[65] * rng.choice([4297, 4400, 5000]), p=[0, rng.choice([0, 2])]))
+    jobs.append(dict(sym="qr", content=[49] * rng.choice([7090, 7200]), p=[0, rng.choice([0, 1])]))
+    jobs.append(dict(sym="qr", content=[65] * 1853, p=[3, 2]))
+    jobs.append(dict(sym="qr", content=[97] * 2954, p=[0, rng.choice([0, 3])]))
+    jobs.append(dict(sym="qr", content=list(b"12345x"), p=[1, 1]))
+    jobs.append(dict(sym="dm", content=[65] * 1559, p=[]))
+    jobs.append(dict(sym="aztec", content=[200] * 3200, p=[33, 0]))
+    jobs.append(dict(sym="pdf", content=[97] * 2800, p=[rng.randrange(9)]))
     for k, j in enumerate(jobs):
         j["key"] = k + 1
     return jobs
